@@ -84,7 +84,11 @@ def symexpr(rng, params):
         b = syms[-1] if len(syms) > 1 else sym.Symbol(names[0] + "z")
         e = rng.choice([-(a ** 2), -(a ** 2) * b, -(a ** 2) / 3, -(a + b) ** 2, sym.Rational(-2, 3) * a ** 2, -(a ** 3) / b,
                         b - (a ** 2) / 3, b ** (-(a ** 2)), -2 ** a + b, -(a ** 2) * b * sym.pi, sym.Rational(-1, 7) * a ** 2 * b,
-                        (a - b) ** 3 * (-1), -a * b ** 2, a / (b ** 2) - a ** 2, -(a * b) ** 2, 1 / (a + b) - a ** 2 / 5])
+                        (a - b) ** 3 * (-1), -a * b ** 2, a / (b ** 2) - a ** 2, -(a * b) ** 2, 1 / (a + b) - a ** 2 / 5,
+                        # number bases in every printed form: small/large floats (scientific notation), rationals, pi
+                        -(sym.Float(0.00002) ** a), -(sym.Float(1e20) ** a) * 3, -(sym.Float(2.5) ** a) * b, -(sym.Rational(1, 3) ** a),
+                        -(sym.pi ** a), -(sym.Float(1e-7) ** (a + b)), b - sym.Float(3e-9) ** a, -(sym.Float(0.5) ** a) / b,
+                        sym.Float(1e-10) * a - sym.Float(1e22) * b ** 2, -sym.Float(1.5e-8) * a ** 2])
     if not getattr(e, "free_symbols", None):
         e = syms[0] * 2 + 1          # constant sympy numbers are not "expressions in named parameters"
     for s in e.free_symbols:
